@@ -404,10 +404,17 @@ class Storage:
         return {'objects': list(objs), 'properties': list(props),
                 'bools': [[int(b) for b in r] for r in info['fca'].bools()]}
 
+    def hashseed_of(self, node):
+        return int(core.HARNESS_HASHSEED) if node == 0 else self.seeds.get(node, 7 + node)
+
     def writer_reader_fault(self, node, f):
         w = f.get('writer_node')
-        if w is not None and (w != node or f.get('writer_epoch') != self.epoch.get(node, 0)):
-            self.rec.fault('hashseed_switch' if w != node else 'restart_between_write_and_read')
+        if w is None:
+            return
+        if w != node or f.get('writer_epoch') != self.epoch.get(node, 0):
+            self.rec.fault('reader_is_another_process' if w != node else 'restart_between_write_and_read')
+            if f.get('writer_seed') != self.hashseed_of(node):
+                self.rec.fault('hashseed_switch')
 
     def close(self):
         for n, nd in self.nodes.items():
@@ -585,7 +592,8 @@ class Storage:
             if before > os.path.getsize(p):
                 rec.probe('overwrite_longer_file')
         self.files[target] = {'form': 'json', 'li': info['li'], 'fca': info['fca'], 'has_lat': not ign, 'enc': enc,
-                              'permuted': False, 'writer_node': node, 'writer_epoch': self.epoch.get(node, 0)}
+                              'permuted': False, 'writer_node': node, 'writer_epoch': self.epoch.get(node, 0),
+                              'writer_seed': self.hashseed_of(node)}
         with open(p, 'rb') as fh:
             rec.log('ok ' + core.sha(fh.read().decode(enc, errors='replace'))[:16])
 
@@ -647,7 +655,8 @@ class Storage:
         if existed:
             rec.fault('path_overwrite')
         self.files[target] = {'form': 'literal', 'li': info['li'], 'fca': info['fca'], 'has_lat': info['has_lat'],
-                              'permuted': False, 'writer_node': node, 'writer_epoch': self.epoch.get(node, 0)}
+                              'permuted': False, 'writer_node': node, 'writer_epoch': self.epoch.get(node, 0),
+                              'writer_seed': self.hashseed_of(node)}
         with open(p, 'rb') as fh:
             rec.log('ok ' + core.sha(fh.read().decode('utf-8'))[:16])
 
@@ -722,7 +731,8 @@ class Storage:
         if existed:
             rec.fault('path_overwrite')
         self.files[target] = {'form': 'pk_' + what, 'li': info['li'], 'fca': info['fca'], 'has_lat': what == 'lat',
-                              'permuted': False, 'writer_node': node, 'writer_epoch': self.epoch.get(node, 0)}
+                              'permuted': False, 'writer_node': node, 'writer_epoch': self.epoch.get(node, 0),
+                              'writer_seed': self.hashseed_of(node)}
         rec.log('ok')
 
     def ev_pk_r(self, node, target, dst):
@@ -818,7 +828,8 @@ class Storage:
         self.ref_read_check(frmat, text, info, kwargs, f'file {target} written by tofile({frmat})')
         self.files[target] = {'form': frmat, 'li': info['li'], 'fca': info['fca'], 'enc': enc, 'kwargs': kwargs,
                               'permuted': False, 'has_lat': False, 'writer': 'lib',
-                              'writer_node': node, 'writer_epoch': self.epoch.get(node, 0)}
+                              'writer_node': node, 'writer_epoch': self.epoch.get(node, 0),
+                              'writer_seed': self.hashseed_of(node)}
         rec.log('ok ' + core.sha(text)[:16])
 
     def ref_read_check(self, frmat, text, info, kwargs, what):
